@@ -374,10 +374,10 @@ class Network(ElementBase):
             raise ValueError("Path must be longer than a single node.")
 
         last_node = point
-        if not isinstance(first_node, Node):
+        if not isinstance(last_node, Node):
             raise TypeError(
                 f"Last element of the path must be a `{Node.__name__}`; got "
-                f"{type(first_node)} instead."
+                f"{type(last_node)} instead."
             )
         if destination is not None:
             self.add_destination(destination, last_node)
